@@ -126,6 +126,10 @@ LAYOUTS = {
     "I": {"rpdo": {1: [(0x6040, 16)]}, "tpdo": {1: [(0x6041, 16)]},
           "tpdo_sync": {2: [(0x6041, 16), (0x6064, 32)]}},
     "F": {"rpdo_off": {1: [(0x6040, 16)], 2: [(0x6060, 8), (0x6040, 16)]}, "rpdo": {}, "tpdo": {1: [(0x6041, 16)]}},
+    # the controlword is mapped twice: in the event-driven RPDO 1 and, together with the target position, in the
+    # synchronous RPDO 2 (transmission type 1) which nobody streams.  canopen documents "the first RPDO that
+    # has that index configured" as the one it uses
+    "J": {"rpdo": {1: [(0x6040, 16)]}, "rpdo_sync": {2: [(0x6040, 16), (0x607A, 32)]}, "tpdo": {1: [(0x6041, 16)]}},
 }
 RPDO_BASE = [0x200, 0x300, 0x400, 0x500]
 TPDO_BASE = [0x180, 0x280, 0x380, 0x480]
@@ -448,6 +452,8 @@ class RefDrive402:
         self.rpdo_ids = {RPDO_BASE[n - 1] + self.node_id: ent
                          for n, ent in self.layout["rpdo"].items()}
         self.rpdo_off_ids = {RPDO_BASE[n - 1] + self.node_id for n in self.layout.get("rpdo_off", {})}
+        # valid synchronous RPDOs: the data would take effect at the next SYNC, which never comes here
+        self.rpdo_sync_ids = {RPDO_BASE[n - 1] + self.node_id for n in self.layout.get("rpdo_sync", {})}
         return self.port
 
     def _on_frame(self, fr):
